@@ -111,6 +111,9 @@ def run(name, checks, tier='quick'):
         sh('git -C /repo checkout -- .')
         rc, o = sh('git -C /repo status --porcelain --untracked-files=no')
         assert not o.strip()
+        # the harness binaries were built against the patched tree: rebuild them, so that a driver started by hand afterwards
+        # does not silently carry the seeded change
+        sh('cargo build --offline --release', cwd=os.path.join(ROOT, 'harness'))
     mp = os.path.join(out, 'meta.json')
     meta = json.load(open(mp))
     meta.setdefault('detected_by', {}).update({'%s/%s' % (c, tier): r for c, r in res.items()})
